@@ -1,0 +1,59 @@
+//go:build verif
+
+// Contracts for the gowp verifier (/verif). Comment-only file: compiled only with -tags verif and
+// contributes no code either way.
+
+package tlv
+
+//@ func ReadVarInt
+//@   props C10
+//@   requires buf != nil
+//@   let d = discriminant
+//@   site call ReadFull nth 0: assert arg(1) == subslice(sliceof(*buf), 0, 1) && arg(0) == r
+//@   site call ReadFull nth 1: assert arg(1) == subslice(sliceof(*buf), 0, 2) && arg(0) == r && discriminant == 253
+//@   site call ReadFull nth 2: assert arg(1) == subslice(sliceof(*buf), 0, 4) && arg(0) == r && discriminant == 254
+//@   site call ReadFull nth 3: assert arg(1) == subslice(sliceof(*buf), 0, 8) && arg(0) == r && discriminant == 255
+//@   site call Uint16: assert arg(1) == subslice(sliceof(*buf), 0, 2) && retn(ReadFull, 1, 1) == nil
+//@   site call Uint32: assert arg(1) == subslice(sliceof(*buf), 0, 4) && retn(ReadFull, 1, 2) == nil
+//@   site call Uint64: assert arg(1) == subslice(sliceof(*buf), 0, 8) && retn(ReadFull, 1, 3) == nil
+//@   site return nil: assert retn(ReadFull, 1, 0) == nil &&
+//@        (discriminant <  253 ==> result0 == discriminant) &&
+//@        (discriminant == 253 ==> result0 == ret(Uint16) && result0 >= 253) &&
+//@        (discriminant == 254 ==> result0 == ret(Uint32) && result0 > 65535) &&
+//@        (discriminant == 255 ==> result0 == ret(Uint64) && result0 > 4294967295)
+//@   ensures retn(ReadFull, 1, 0) == io.EOF ==> result1 == io.EOF
+//@   ensures retn(ReadFull, 1, 0) == nil ==> result1 != io.EOF
+//@   nopanic
+//@
+//@ func WriteVarInt
+//@   props C10
+//@   requires buf != nil
+//@   site call PutUint16: assert 253 <= val && val <= 65535 && arg(2) == val && arg(1) == subslice(sliceof(*buf), 1, 3) && (*buf)[0] == 253
+//@   site call PutUint32: assert 65535 < val && val <= 4294967295 && arg(2) == val && arg(1) == subslice(sliceof(*buf), 1, 5) && (*buf)[0] == 254
+//@   site call PutUint64: assert val > 4294967295 && arg(2) == val && arg(1) == subslice(sliceof(*buf), 0, 8) && retn(Write, 1, 0) == nil
+//@   site call Write nth 0: assert val > 4294967295 && arg(1) == subslice(sliceof(*buf), 0, 1) && (*buf)[0] == 255
+//@   site call Write nth 1: assert arg(1) == subslice(sliceof(*buf), 0, length) &&
+//@        length == ite(val < 253, 1, ite(val <= 65535, 3, ite(val <= 4294967295, 5, 8))) &&
+//@        (val < 253 ==> (*buf)[0] == val)
+//@   nopanic
+//@
+//@ func (s *Stream) decode
+//@   props C10
+//@   requires s != nil
+//@   loop 0 invariant recordIdx >= 0
+//@   loop 0 step !prev(overflow) && typ >= prev(min) && min == wrap(typ + 1, 64) &&
+//@        (overflow <==> typ == 18446744073709551615) && (p2p ==> length <= 65535) &&
+//@        retn(ReadVarInt, 1, 0) == nil && retn(ReadVarInt, 1, 1) == nil && typ == retn(ReadVarInt, 0, 0) && length == retn(ReadVarInt, 0, 1)
+//@   site call decoder: assert (p2p ==> length <= 65535) && arg(3) == length && arg(0) == r && !overflow && typ >= min
+//@   site call CopyN: assert (p2p ==> length <= 65535 && arg(2) == length) && arg(1) == r && !overflow && typ >= min
+//@   site make: assert arg(cap) == length && arg(len) == 0 && (p2p ==> length <= 65535)
+//@   site call getRecord: assert arg(typ) == typ && arg(idx) == recordIdx
+//@   site return nil: assert retn(ReadVarInt, 1, 0) == io.EOF && result0 == parsedTypes
+//@
+//@ func (s *Stream) getRecord
+//@   props C10
+//@   requires s != nil && 0 <= idx
+//@   ensures result2 ==> result0.typ == typ && result1 <= len(s.records) && result1 > idx
+//@   ensures result1 >= idx && result1 <= max(idx, len(s.records))
+//@   loop 0 invariant entry(idx) <= idx && idx <= max(entry(idx), len(s.records))
+//@   nopanic
